@@ -363,7 +363,7 @@ def continue_case_st(draw):
     prog = draw(gen.program_st(faults=False, max_features=2, outcomes=["pass", "pass", "fail", "raise"], with_async=False,
                                cfg=gen.cfg_st(flags=("stop",), p_tags=0.3)))
     prog["cfg"]["continue_after_failed"] = True
-    return {"kind": "cli" if draw(st.integers(0, 39)) == 0 else "run", "program": prog}
+    return {"kind": "cli" if draw(st.integers(0, 49)) == 0 else "run", "program": prog}
 
 
 @st.composite
@@ -410,7 +410,7 @@ def explore(rec):
         lambda c: dict(c, kind="runner")), 1200 if quick else 30000)
     # the documented switch Scenario.continue_after_failed_step: the steps after a failing one still run (and may pass);
     # the scenario and the run have failed all the same (in-process and as exit code of the child process)
-    rec.hyp("continue-after-failed-step", continue_case_st(), 1200 if quick else 25000)
+    rec.hyp("continue-after-failed-step", continue_case_st(), 800 if quick else 25000)
     rec.hyp("aborted-runs", abort_case_st(), 1500 if quick else 30000)
     from . import c03
     rec.hyp("autoretry", c03.autoretry_case(), 700 if quick else 15000)
